@@ -1,18 +1,62 @@
-"""Deterministic sharding over worker processes (fork, started once per map)."""
+"""Deterministic sharding over worker processes (fork, started once per map).
+
+concurrent.futures is used rather than multiprocessing.Pool because it notices a worker that died
+(BrokenProcessPool) instead of waiting for its result for ever; shards lost that way are re-run
+once in a fresh pool, then serially.  A map that makes no progress for VERIF_MAP_STALL seconds is a
+harness error, never a silent hang.
+"""
+import concurrent.futures as cf
 import multiprocessing as mp
 import os
 import sys
+import time
 import traceback
 
 from . import env
 
+STALL = int(os.environ.get("VERIF_MAP_STALL", "900"))
 
-def _wrap(args):
-    fn, idx, item = args
+
+def _wrap(fn, idx, item):
     try:
         return idx, fn(item), None
     except BaseException:  # report, never hang the pool
         return idx, None, traceback.format_exc()
+
+
+def _wrap_many(fn, batch):
+    return [_wrap(fn, i, it) for i, it in batch]
+
+
+def _run_pool(fn, todo, n):
+    """todo: list of (idx, item).  Returns (done results, indices not completed)."""
+    out = []
+    left = dict(todo)
+    ctx = mp.get_context("fork")
+    ex = cf.ProcessPoolExecutor(max_workers=n, mp_context=ctx)
+    try:
+        size = max(1, len(todo) // (n * 6))
+        batches = [todo[i:i + size] for i in range(0, len(todo), size)]
+        futs = [ex.submit(_wrap_many, fn, b) for b in batches]
+        pending = set(futs)
+        last = time.time()
+        while pending:
+            done, pending = cf.wait(pending, timeout=10, return_when=cf.FIRST_COMPLETED)
+            if done:
+                last = time.time()
+            for f in done:
+                try:
+                    rs = f.result()
+                except cf.process.BrokenProcessPool:
+                    return out, sorted(left)
+                for r in rs:
+                    out.append(r)
+                    left.pop(r[0], None)
+            if time.time() - last > STALL:
+                raise RuntimeError(f"no shard finished for {STALL}s ({len(pending)} batches pending): harness stalled")
+        return out, []
+    finally:
+        ex.shutdown(wait=False, cancel_futures=True)
 
 
 def pmap(fn, items, nproc=None, chunksize=1):
@@ -23,12 +67,16 @@ def pmap(fn, items, nproc=None, chunksize=1):
     items = list(items)
     n = min(nproc or env.NPROC, max(1, len(items)))
     env.scratch()  # create before fork so that children share it and do not own it
+    todo = list(enumerate(items))
     if n <= 1 or os.environ.get("VERIF_SERIAL"):
-        out = [_wrap((fn, i, it)) for i, it in enumerate(items)]
+        out = [_wrap(fn, i, it) for i, it in todo]
     else:
-        ctx = mp.get_context("fork")
-        with ctx.Pool(n) as pool:
-            out = list(pool.imap_unordered(_wrap, [(fn, i, it) for i, it in enumerate(items)], chunksize))
+        out, lost = _run_pool(fn, todo, n)
+        if lost:
+            sys.stderr.write(f"cbimc: a worker process died; re-running {len(lost)} shard(s)\n")
+            more, lost2 = _run_pool(fn, [(i, items[i]) for i in lost], n)
+            out += more
+            out += [_wrap(fn, i, items[i]) for i in lost2]
     out.sort(key=lambda r: r[0])
     for idx, res, err in out:
         if err:
